@@ -111,8 +111,7 @@ def classifyHead (name : Str) (nlabels : Nat) : Except Err Head :=
     if nlabels ≠ 1 then .error (.syntax "only one label should be used for proto") else .ok .proto
   else if name = kwFunc then
     if nlabels ≠ 1 then .error (.syntax "only one label should be used for func") else .ok .func
-  else if name = kwEndfunc then
-    if nlabels ≠ 0 then .error (.syntax "endfunc should have no labels") else .ok .endfunc
+  else if name = kwEndfunc then .ok .endfunc      -- labels in front of it end the function body
   else if name = kwExport then
     if nlabels ≠ 0 then .error (.syntax "export should have no labels") else .ok .export
   else if name = kwImport then
@@ -207,7 +206,7 @@ def parseDeclRest (h : Head) (ty : Ty) : List Tok → Except Err (ROp × List To
       | _ => .error (.syntax "global without hard register")
   | .col :: .int v :: ts =>
     if h.isLocalGlobal || !ty.isBlk then .error (.syntax (if h = .local then "wrong var" else "wrong arg"))
-    else if v.toNat ≥ 2 ^ 32 then .error (.syntax "invalid block arg size")   -- negative or ≥ 2^32
+    else if v.toNat ≥ 2 ^ 63 then .error (.syntax "invalid block arg size")   -- `t.u.i < 0` (the size is kept as a size_t)
     else
       match ts with
       | .lpar :: .name vn :: .rpar :: ts' => .ok (.blk ty v.toNat vn, ts')
